@@ -8,8 +8,9 @@ set -u
 PROP=$1; SRC=$2; NAME=$3
 export GOFLAGS=-mod=mod GOPROXY=off GOSUMDB=off GOTOOLCHAIN=local
 WT=/tmp/wt-eval-$$
+mkdir -p /tmp/seedverif-$$ && cp -r /verif/harness /verif/known_findings.json /tmp/seedverif-$$/
 git -C /repo worktree add -q --detach $WT HEAD || exit 2
-trap 'git -C /repo worktree remove --force $WT >/dev/null 2>&1' EXIT
+trap 'git -C /repo worktree remove --force $WT >/dev/null 2>&1; rm -rf /tmp/seedverif-$$' EXIT
 pkgname=$(grep -m1 '^package ' $SRC/demo_test.go | awk '{print $2}' | sed 's/_test$//')
 pkgdir=$(cd $WT && grep -l --include='*.go' -r "^package $pkgname\$" . | grep -v _test.go | grep -v SEED | head -1 | xargs dirname)
 [ -z "$pkgdir" ] && { echo "cannot find package dir for $pkgname"; exit 2; }
@@ -30,12 +31,12 @@ echo "  demo with change: $mut_demo"
 confirmed=no
 case "$base_demo" in ok*) case "$mut_demo" in FAIL*) [ -z "$build" ] && [ -z "$suite" ] && confirmed=yes;; esac;; esac
 echo "  confirmed: $confirmed"
-# run the check against /repo with the change
-git -C /repo apply $SRC/patch.diff || { echo "patch does not apply to /repo"; exit 2; }
+# run the check against the scratch worktree with the change (the engine is pointed at it;
+# /repo itself is not touched, so background runs against /repo are not disturbed)
+rm -f $WT/$pkgdir/zz_seed_demo_test.go
 s=$(date +%s)
-out=$(timeout 1800 ./check.sh $PROP ${TIER:-quick} 2>&1); rc=$?
+out=$(POLYSYM_REPO=$WT VERIF_DIR=/tmp/seedverif-$$ timeout 1800 ./bin/polysym run $PROP ${TIER:-quick} 2>&1); rc=$?
 e=$(date +%s)
-git -C /repo checkout -- .
 echo "  check $PROP rc=$rc ($((e-s))s): $(echo "$out" | grep -c '^VIOLATION') VIOLATION lines; $(echo "$out" | grep 'violated:' | sed 's/.*clause=//' | cut -d' ' -f1 | sort -u | paste -sd,)"
 mkdir -p seeded/$NAME
 cp $SRC/patch.diff seeded/$NAME/patch.diff
@@ -51,4 +52,3 @@ json.dump({"property":"$PROP","name":"$NAME","demo_package_dir":"$pkgdir","demo_
  "needs_to_manifest": open("$SRC/notes.md").read()[:1500] if __import__("os").path.exists("$SRC/notes.md") else ""},
  open("seeded/$NAME/meta.json","w"),indent=1)
 PY
-rm -f replays/$PROP-*.json
